@@ -792,7 +792,7 @@ impl Other {
                 }),
             },
             // an observation for the model driver only: it compares the answers the two sources gave last
-            "ssame" => Some("ok".into()),
+            "ssame" | "ksame" => Some("ok".into()),
             "pull" => {
                 let s = self.srcs.get_mut(&id(toks[1])).expect("harness: unknown source id");
                 Some(match s {
